@@ -437,8 +437,16 @@ def check_mro(world: Dict[str, Any], system: Any) -> List[Viol]:
                 for baselist, attrs in _twutil.class_members(cls):
                     for a in attrs:
                         shown.setdefault(a.name, []).append(marker_of(baselist[0]))
+                hidden = set(world.get('hidden_members', ()))
                 for name in sorted(names):
                     definer = next(c for c in want if name in defs[str(c)]['members'])
+                    if defs[str(definer)]['members'][name] in hidden or definer in hidden:
+                        # attribute lookup reaches a member that a privacy rule hides: it is not listed, and above all not
+                        # listed under a class further up
+                        if shown.get(name):
+                            out.append(('hidden-override-does-not-mask', f'on the page of M{cid}, member {name!r} is listed under {shown.get(name)}, attribute lookup finds the hidden M{defs[str(definer)]["members"][name]} in M{definer}'))
+                            break
+                        continue
                     if shown.get(name) != [definer]:
                         out.append(('member-listed-under-wrong-class', f'on the page of M{cid}, member {name!r} is listed under {shown.get(name)}, attribute lookup finds it in M{definer}'))
                         break
